@@ -62,6 +62,8 @@ struct Opts {
     counters: [Option<i32>; 9],
     withins: [Option<&'static str>; 9],
     keep_tags: Option<&'static str>,
+    /// a second tag list (a snapshot is kept if it carries all tags of *one* of the lists)
+    keep_tags2: Option<&'static str>,
     keep_id: Option<&'static str>,
     keep_none: bool,
     delete_unchanged: bool,
@@ -82,6 +84,9 @@ impl Opts {
         if let Some(t) = self.keep_tags {
             _ = m.insert("keep_tags".into(), json!(t));
         }
+        if let Some(t) = self.keep_tags2 {
+            _ = m.insert("keep_tags2".into(), json!(t));
+        }
         if let Some(t) = self.keep_id {
             _ = m.insert("keep_id".into(), json!(t));
         }
@@ -101,6 +106,7 @@ impl Opts {
             o.withins[i] = v[n].as_str().and_then(|s| SPANS.iter().find(|x| **x == s).copied());
         }
         o.keep_tags = v["keep_tags"].as_str().map(|s| if s == "foo" { "foo" } else { "foo,bar" });
+        o.keep_tags2 = v["keep_tags2"].as_str().map(|s| if s == "baz" { "baz" } else { "foo,bar" });
         o.keep_id = v["keep_id"].as_str().map(|s| if s == "aa" { "aa" } else { "ff" });
         o.keep_none = v["keep_none"].as_bool().unwrap_or(false);
         o.delete_unchanged = v["delete_unchanged"].as_bool().unwrap_or(false);
@@ -150,6 +156,9 @@ impl Opts {
         k.keep_within_yearly = sp(self.withins[8]);
         if let Some(t) = self.keep_tags {
             k.keep_tags = vec![StringList::from_str(t).unwrap()];
+        }
+        if let Some(t) = self.keep_tags2 {
+            k.keep_tags.push(StringList::from_str(t).unwrap());
         }
         if let Some(i) = self.keep_id {
             k.keep_ids = vec![i.to_string()];
@@ -257,7 +266,7 @@ fn reference(snaps: &[SnapshotFile], o: &Opts, now: &Zoned) -> Vec<bool> {
                 k = true;
             }
         }
-        if let Some(t) = o.keep_tags {
+        for t in [o.keep_tags, o.keep_tags2].into_iter().flatten() {
             let want: Vec<&str> = t.split(',').collect();
             let has = |x: &str| sn.tags.contains(x);
             if want.iter().all(|w| has(w)) {
@@ -516,6 +525,16 @@ pub fn run(args: &Args, rep: &mut Report) {
                 }
                 optsb.push(o);
             }
+        }
+    }
+    // two tag lists: kept if all tags of one of them are carried
+    for (a, b) in [("foo", "baz"), ("foo,bar", "baz"), ("foo", "foo,bar")] {
+        for cnt in [None, Some((0usize, 1))] {
+            let mut o = Opts { keep_tags: Some(a), keep_tags2: Some(b), ..Default::default() };
+            if let Some((r, c)) = cnt {
+                o.counters[r] = Some(c);
+            }
+            optsb.push(o);
         }
     }
     for set in &sets3 {
